@@ -620,19 +620,66 @@ def _dec_int(it, signed, order):
     return v.conc() if v.conc() is not None else v
 
 
+_CODES = {'B': (1, False), 'b': (1, True), 'H': (2, False), 'h': (2, True), 'L': (4, False), 'l': (4, True), 'I': (4, False), 'i': (4, True),
+          'Q': (8, False), 'q': (8, True)}
+
+
+def _parse_fmt(fmt):
+    """standard-size struct formats: [><!] then (count)code*, integer codes and x only -> (order, [(size, signed) | None for pad])"""
+    if not isinstance(fmt, str) or not fmt: raise Unsupported('struct format %r' % (fmt,))
+    f = fmt.replace(' ', '')
+    if f in ('B', 'b'): return 'big', [_CODES[f]]
+    if f[0] not in '<>!': raise Unsupported('struct format %r (native size/alignment)' % (fmt,))
+    order = 'little' if f[0] == '<' else 'big'
+    out = []; cnt = ''
+    for ch in f[1:]:
+        if ch.isdigit(): cnt += ch; continue
+        n = int(cnt) if cnt else 1; cnt = ''
+        if ch == 'x': out += [None] * n
+        elif ch in _CODES: out += [_CODES[ch]] * n
+        else: raise Unsupported('struct format %r' % (fmt,))
+    if cnt: raise _struct.error('repeat count given without format specifier')
+    return order, out
+
+
 def m_pack(fmt, *vs):
-    if fmt not in _FMT or len(vs) != 1: raise Unsupported('struct.pack format %r' % (fmt,))
-    n, signed, order = _FMT[fmt]
-    if vs[0] is None or isinstance(vs[0], (str, bytes, float)): raise _struct.error('required argument is not an integer')
-    return SymBuf(_enc_int(vs[0], n, signed, order, _struct.error('argument out of range')), 'bytes')
+    order, fields = _parse_fmt(fmt)
+    if len(vs) != sum(1 for x in fields if x is not None):
+        raise _struct.error('pack expected %d items for packing (got %d)' % (sum(1 for x in fields if x is not None), len(vs)))
+    out = []; k = 0
+    for fl in fields:
+        if fl is None: out.append(0); continue
+        v = vs[k]; k += 1
+        if v is None or isinstance(v, (str, bytes, float)): raise _struct.error('required argument is not an integer')
+        out += list(_enc_int(v, fl[0], fl[1], order, _struct.error('argument out of range')))
+    return SymBuf(out, 'bytes')
 
 
 def m_unpack(fmt, buf):
-    if fmt not in _FMT: raise Unsupported('struct.unpack format %r' % (fmt,))
-    n, signed, order = _FMT[fmt]
+    order, fields = _parse_fmt(fmt)
     it = _raw_items(buf)
+    n = sum(1 if fl is None else fl[0] for fl in fields)
     if len(it) != n: raise _struct.error('unpack requires a buffer of %d bytes' % n)
-    return (_dec_int(it, signed, order),)
+    out = []; p = 0
+    for fl in fields:
+        if fl is None: p += 1; continue
+        out.append(_dec_int(it[p:p + fl[0]], fl[1], order)); p += fl[0]
+    return tuple(out)
+
+
+def m_unpack_from(fmt, buf, offset=0):
+    order, fields = _parse_fmt(fmt)
+    it = _raw_items(buf)
+    n = sum(1 if fl is None else fl[0] for fl in fields)
+    if isinstance(offset, SymInt): offset = core.pinned_value(offset, 'unpack_from offset')
+    if offset < 0: offset += len(it)
+    if offset < 0 or len(it) - offset < n: raise _struct.error('unpack_from requires a buffer of at least %d bytes' % (n + max(offset, 0)))
+    return m_unpack(fmt, SymBuf(it[offset:offset + n], 'bytes'))
+
+
+def m_calcsize(fmt):
+    order, fields = _parse_fmt(fmt)
+    return sum(1 if fl is None else fl[0] for fl in fields)
 
 
 def m_int_from_bytes(data, byteorder='big', *, signed=False):
@@ -693,7 +740,7 @@ def m_range(*a):
 
 MODELS = {
     builtins.bytearray: m_bytearray, builtins.bytes: m_bytes, builtins.memoryview: m_memoryview,
-    _array.array: m_array, _struct.pack: m_pack, _struct.unpack: m_unpack,
+    _array.array: m_array, _struct.pack: m_pack, _struct.unpack: m_unpack, _struct.unpack_from: m_unpack_from,
     int.from_bytes: m_int_from_bytes, builtins.len: m_len, builtins.type: m_type,
     builtins.isinstance: m_isinstance, builtins.str: m_str, builtins.int: m_int,
     builtins.min: m_min, builtins.max: m_max, builtins.bool: m_bool, builtins.range: m_range,
